@@ -13,6 +13,7 @@ plus a generator-driven sweep (vlib/codecgen.py) over every class and field, unk
 Every judge is total: a value outside the codec's domain returns 'skip' (counted), never a verdict.
 """
 import copy
+import datetime
 import json
 import math
 import random
@@ -676,7 +677,10 @@ def encode(ctx, x, fam, w):
 
 
 UNKNOWN_KEYS = ['zz_future_field', 'Vlan', 'ipv4_', 'new-field', 'with space', '', 'ünï', '0', 'payload2',
-                'Type', 'state2', 'lock']
+                'Type', 'state2', 'lock',
+                # names that are fields of ANOTHER class of the family (unknown where they are offered; what a decoder remembers about
+                # them must not leak into the class that owns them - the sweep keeps round-tripping every class)
+                'mtu', 'core', 'vlan', 'postal', 'instance_type', 'auto_config', 'bdf', 'adm_graph_ids', 'reservation_state']
 PARAM_KEYS = ['forgiving', 'self']
 METHOD_KEYS = ['to_json', 'update', 'list_fields']
 
@@ -1042,6 +1046,31 @@ def sweep_maint(ctx, rng, x, how=None):
             return
         if raised is None and (names or op == 'add'):
             ctx.violation(f'C03/finalized-{op}-does-not-raise', f'{op}() on a finalized maintenance record raises', wf)
+    # --- ... nor through the entries it hands out (get, list_details, iter, a copy's get): they are mutable objects; editing what a
+    # reader was given must not change the finalized record
+    if names:
+        n = rng.choice(names)
+        routes = {'get': lambda: f.get(n), 'list_details': lambda: dict(f.list_details())[n],
+                  'iter': lambda: dict(f.iter())[n], 'copy-get': lambda: f.copy().get(n)}
+        for route, fetch in routes.items():
+            ctx.count('finalized-entry-edited-through:' + route)
+            try:
+                e = fetch()
+                e.state = MaintenanceState.Active if e.state != MaintenanceState.Active else MaintenanceState.Maint
+                e.deadline = datetime.datetime(2031, 1, 2, 3, 4, 5)
+            except Exception:
+                continue            # refusing the edit is fine too
+            with quiet():
+                try:
+                    now_text, now_view = f.to_json(), maint_view(f)
+                except Exception as ex:
+                    now_text, now_view = f'<raises {type(ex).__name__}>', None
+            if now_text != before_text or now_view != before_view:
+                ctx.violation(f'C03/finalized-record-altered-through-entry:{route}', 'a finalized maintenance record cannot be altered - also '
+                              f'not by editing the entry object {route} handed out',
+                              {'kind': 'finalized', 'finalized_by': how, 'route': route, 'name': short(n), 'before': short(before_text),
+                               'after': short(now_text)})
+                return
     # --- forward compatibility inside an entry (reported under its own mechanism key)
     if judged and view:
         with quiet():
